@@ -20,7 +20,11 @@ ASSUMPTIONS = [
     "as the flow's original direction afterwards",
     "the real 16-bit wrap is reached by shifting the version counter and the version of every tracked flow by the same amount "
     "in-package (the code only compares versions for equality and the counter with zero)",
-    "unsafe-network changes of the certificate are not varied (the reload path is the same; local-address admission is C17)",
+    "reloads that change what unchanged rule text means are part of the reload alphabet: firewall.default_local_cidr_any is "
+    "flipped both ways under rules without local_cidr, with a certificate that has an unsafe network and flows to an own and to "
+    "an unsafe-network address (Conntrack.tla ReloadCfg / EffSem); the flows are judged by the effective rules",
+    "a change of the certificate's unsafe networks is not varied: it cannot change what a rule covers for an address that stays "
+    "routable (a rule without local_cidr only distinguishes 'no unsafe network' from 'some'), and routability is C17's subject",
 ]
 
 
